@@ -1374,6 +1374,67 @@ func c05_7(c *core.Ctx, p *core.Prog) {
 			cut2[core.Edge{From: b, To: b.Succs[1]}] = true
 		}
 	}
+	// every item that is added to the batch is followed by the flush test — in the main arm and in the shutdown drain
+	// alike: one send passes on at most send_batch_max_size items, so a drain that only collects what is queued and
+	// sends once afterwards drops the rest of what was accepted
+	{
+		flushFns := map[*ssa.Function]bool{}
+		for _, g := range cbpFuncs(c, p) {
+			if g == fn || nonEmptyFlushHelper(a, g) {
+				continue
+			}
+			g := g
+			core.EachInstr(g, func(i ssa.Instruction) {
+				if isCallTo(i, a.sendFn) {
+					flushFns[g] = true
+				}
+			})
+		}
+		var mustFlush func(h *ssa.Function, d int) bool
+		mustFlush = func(h *ssa.Function, d int) bool {
+			if h == nil || len(h.Blocks) == 0 || d > 2 {
+				return false
+			}
+			if flushFns[h] {
+				return true
+			}
+			miss, _ := (core.PathQuery{Fn: h, ExitReturnOnly: true, Avoid: func(j ssa.Instruction) bool {
+				cl, ok := j.(*ssa.Call)
+				if !ok {
+					return false
+				}
+				g := cl.Call.StaticCallee()
+				return g != nil && g != h && (flushFns[g] || (core.FnPkgPath(g) == core.CBPPath && mustFlush(g, d+1)))
+			}}).Exists()
+			return !miss
+		}
+		nH := 0
+		core.EachInstr(fn, func(i ssa.Instruction) {
+			if !handlesItem(m, i) {
+				return
+			}
+			nH++
+			cl, _ := i.(*ssa.Call)
+			okF := false
+			if cl != nil {
+				okF = mustFlush(cl.Call.StaticCallee(), 0)
+			}
+			if !okF {
+				// the flush test may follow in the loop function itself, before the next receive
+				isFlush := func(j ssa.Instruction) bool {
+					c2, ok := j.(*ssa.Call)
+					return ok && c2.Call.StaticCallee() != nil && flushFns[c2.Call.StaticCallee()]
+				}
+				if skip, _ := (core.PathQuery{Fn: fn, From: i, To: m.mainSelect, Avoid: isFlush}).Exists(); !skip {
+					if skip2, _ := (core.PathQuery{Fn: fn, From: i, ExitReturnOnly: true, Avoid: isFlush}).Exists(); !skip2 {
+						okF = true
+					}
+				}
+			}
+			c.Check(okF, fmt.Sprintf("item-arm|flush#%d", nH), p.Pos(i.Pos()), core.FuncName(fn), "an item added to the batch is followed by the flush test",
+				"a request taken from the queue is added to the batch without the flush test that follows every other arrival (e.g. in the shutdown drain, 'it is sent below'): the single send that follows passes on at most send_batch_max_size items, so with more than that queued at shutdown the rest of what was accepted is dropped")
+		})
+	}
 	skips, _ := (core.PathQuery{Fn: pf, Avoid: isAdd, CutEdges: cut2, ExitReturnOnly: true}).Exists()
 	c.Check(!skips, "handler|adds", p.Pos(pf.Pos()), core.FuncName(pf), "the item handler adds every request's data to the batch",
 		"the item handler can return without adding the request's data to the batch (e.g. when the caller's context has already ended): with early_return the caller was told success when it enqueued, so an accepted request is dropped — also by the shutdown drain")
